@@ -1,5 +1,6 @@
 import Ndt.Driver.Proto
 import Ndt.Model.Dea3
+import Ndt.Gen.Dea3
 import Ndt.Model.Richardson
 import Ndt.Model.Rule
 import Ndt.Model.Fornberg
@@ -434,11 +435,11 @@ def handle (w : List String) : String :=
     | _ => "bad-op"
   -- dea3 <eps> <tiny> e0 e1 e2  (Float, bit patterns)
   | ["dea3", eps, tiny, a, b, c] =>
-    let (r, e) := dea3 (floatConsts (fb eps) (fb tiny)) (fb a) (fb b) (fb c)
+    let (r, e) := Gen.dea3_elem (floatConsts (fb eps) (fb tiny)) (fb a) (fb b) (fb c)
     s!"{toHex r} {toHex e}"
   -- dea3q <eps> <tiny> e0 e1 e2  (Rat)
   | ["dea3q", eps, tiny, a, b, c] =>
-    let (r, e) := dea3 (⟨rq eps, rq tiny, (1 : Rat) / 10000, 10⟩ : Consts Rat) (rq a) (rq b) (rq c)
+    let (r, e) := Gen.dea3_elem (⟨rq eps, rq tiny, (1 : Rat) / 10000, 10⟩ : Consts Rat) (rq a) (rq b) (rq c)
     s!"{ratStr r} {ratStr e}"
   | _ => "bad-op"
 
